@@ -24,13 +24,13 @@ type VerifNode struct {
 // VerifDriver is what the harness drives.
 type VerifDriver interface {
 	Timer() Timer
-	PendingAdd() int // requests waiting in the start channel
-	PendingDel() int // requests waiting in the cancel channel
-	HandleAdd() bool // the worker's pendingAdd arm; false when nothing is pending
-	HandleDel() bool // the worker's pendingDel arm; false when nothing is pending
-	Pass(n int64)    // n time units pass, the worker does not look at the clock
-	Tick()           // the worker's ticker arm with the current virtual time
-	GuardHeld() bool // the mutex is held by somebody right now
+	PendingAdd() int           // requests waiting in the start channel
+	PendingDel() int           // requests waiting in the cancel channel
+	HandleAdd() bool           // the worker's pendingAdd arm; false when nothing is pending
+	HandleDel() bool           // the worker's pendingDel arm; false when nothing is pending
+	Pass(n int64)              // n time units pass, the worker does not look at the clock
+	Tick()                     // the worker's ticker arm with the current virtual time
+	GuardHeld() bool           // the mutex is held by somebody right now
 	TrySize() (n int, ok bool) // len(refer) if the mutex is free right now (never blocks)
 	Probe() (nodes []VerifNode, consistent bool)
 }
